@@ -1,9 +1,303 @@
-(* C07 — streaming AEAD: chunking independence, manipulation detection, I/O faults. *)
-From Coq Require Import List NArith Bool Arith.
+(* C07 — Streaming AEAD is chunking-independent and detects any stream manipulation.
+   Statements only; proofs live in proofs/StreamProofs.v.  The model
+   (model/Stream.v) follows streamingaead/subtle/noncebased/noncebased.go,
+   streamingaead/subtle/aes_{gcm_hkdf,ctr_hmac}.go and streamingaead/decrypt_reader.go.
+   The segment cipher (and, for real keys, HKDF / AES-GCM / AES-CTR / HMAC) are
+   Section variables; their laws are premises of the theorems. *)
+From Coq Require Import List NArith Bool Arith Lia.
 From Tink Require Import Bytes Stream StreamProofs.
 Import ListNotations.
 Open Scope nat_scope.
 
-Theorem C07_toy_cipher_roundtrip : forall n s, toy_decs n (toy_encs n s) = Some s.
-Proof. exact toy_dec_enc. Qed.
-Print Assumptions C07_toy_cipher_roundtrip.
+(* (a) WRITE-PARTITION INDEPENDENCE.  For every list of Write arguments
+   (empty ones included) followed by Close, over a sink that does not fail:
+   every Write accepts all its bytes, Close succeeds, and the bytes handed to
+   the sink are exactly encode_stream of the concatenation — segment_0 ..
+   segment_k with nonce = prefix || be32(i) || last-flag, first segment
+   shorter by the offset.  Precondition 0 < segment − offset is the one
+   NewAESGCMHKDF/NewAESCTRHMAC enforce. *)
+Theorem C07_write_partition_independent :
+  forall (encs : bytes -> bytes -> bytes) (P : wparams) (k : sink) (chunks : list bytes) (st0 : wst),
+    0 < w_seg P - w_off P ->
+    sfail k = None ->
+    (N.of_nat (length (segments (w_seg P) (w_off P) (concat chunks))) <= max_segments)%N ->
+    new_writer P k = Some st0 ->
+    let '(st1, rs) := wwrites encs P st0 chunks in
+    let '(st2, ok) := wclose encs P st1 in
+    rs = map (fun c => WOk (length c)) chunks /\ ok = true /\ wclosed st2 = true /\
+    sout (wsink st2) =
+      sout k ++ encode_stream encs (w_nonce_size P) (w_prefix P) (w_seg P) (w_off P) (concat chunks).
+Proof. intros encs P k chunks st0 Hpos. exact (write_partition_independent encs P Hpos k chunks st0). Qed.
+Print Assumptions C07_write_partition_independent.
+
+(* (b) READ-PARTITION INDEPENDENCE.  Over encode_stream p, for every sequence
+   of Read buffer sizes (zero included) — io.ReadFull absorbs every short-read
+   behaviour of the source —: no error and no panic; the bytes returned are
+   always a prefix of p and are exactly p when EOF is reported; and once
+   |p| + #segments + 1 non-empty reads have been made EOF has been reported. *)
+Theorem C07_read_partition_independent :
+  forall (encs : bytes -> bytes -> bytes) (decs : bytes -> bytes -> option bytes)
+         (P : rparams) (seg ov : nat) (sizes : list nat) (p : bytes) (st0 : rst src),
+    r_ctseg P = seg + ov -> 0 < seg - r_off P -> 0 < ov ->
+    (forall n s, length (encs n s) = length s + ov) ->
+    (forall n s, decs n (encs n s) = Some s) ->
+    (N.of_nat (length (segments seg (r_off P) p)) <= max_segments)%N ->
+    new_reader P (mkSrc (encode_stream encs (r_nonce_size P) (r_prefix P) seg (r_off P) p) None) = Some st0 ->
+    let '(outb, f) := drive decs read_full P sizes st0 [] in
+    (f = AtEof \/ f = Pending) /\ (f = AtEof -> outb = p) /\ (exists tl, p = outb ++ tl) /\
+    (Forall (fun n => 0 < n) sizes -> length p + length (segments seg (r_off P) p) < length sizes -> f = AtEof).
+Proof.
+  intros encs decs P seg ov sizes p st0 Hct Hpos Hov Hlen Hdec.
+  exact (read_partition_independent encs decs P seg ov Hct Hpos Hov Hlen Hdec sizes p st0).
+Qed.
+Print Assumptions C07_read_partition_independent.
+
+(* LINKING.  What the Writer emits (any write partition) is the format the
+   Reader theorem assumes: written through any partition and read back through
+   any partition gives the plaintext, then EOF. *)
+Theorem C07_stream_roundtrip :
+  forall (encs : bytes -> bytes -> bytes) (decs : bytes -> bytes -> option bytes) (ov : nat)
+         (WP : wparams) (RP : rparams) (base : bytes) (chunks : list bytes) (sizes : list nat) (w0 : wst),
+    0 < ov -> (forall n s, length (encs n s) = length s + ov) -> (forall n s, decs n (encs n s) = Some s) ->
+    r_nonce_size RP = w_nonce_size WP -> r_prefix RP = w_prefix WP ->
+    r_off RP = w_off WP -> r_ctseg RP = w_seg WP + ov ->
+    0 < w_seg WP - w_off WP ->
+    (N.of_nat (length (segments (w_seg WP) (w_off WP) (concat chunks))) <= max_segments)%N ->
+    new_writer WP (mkSink base None) = Some w0 ->
+    let '(w1, rs) := wwrites encs WP w0 chunks in
+    let '(w2, ok) := wclose encs WP w1 in
+    rs = map (fun c => WOk (length c)) chunks /\ ok = true /\
+    exists ct, sout (wsink w2) = base ++ ct /\
+    forall r0, new_reader RP (mkSrc ct None) = Some r0 ->
+    let '(outb, f) := drive decs read_full RP sizes r0 [] in
+    (f = AtEof \/ f = Pending) /\ (f = AtEof -> outb = concat chunks) /\
+    (exists tl, concat chunks = outb ++ tl) /\
+    (Forall (fun n => 0 < n) sizes ->
+     length (concat chunks) + length (segments (w_seg WP) (w_off WP) (concat chunks)) < length sizes -> f = AtEof).
+Proof.
+  intros encs decs ov WP RP base chunks sizes w0 Hov Hlen Hdec.
+  exact (stream_roundtrip encs decs ov Hov Hlen Hdec WP RP base chunks sizes w0).
+Qed.
+Print Assumptions C07_stream_roundtrip.
+
+(* REAL KEYS.  For every valid AES-GCM-HKDF / AES-CTR-HMAC key (every key size,
+   hash, tag size, segment size and first-segment offset accepted by the
+   constructors), salt and nonce prefix from the randomness tape, and associated
+   data: NewEncryptingWriter + any Write partition + Close emits exactly
+   header || encode_stream (header = len || salt || prefix; segments under the
+   HKDF-derived session keys), and NewDecryptingReader over those bytes read
+   through any partition returns the plaintext then EOF. *)
+Theorem C07_key_roundtrip :
+  forall (hkdf : hash -> bytes -> bytes -> bytes -> nat -> bytes)
+         (gcm_seal : bytes -> bytes -> bytes -> bytes) (gcm_open : bytes -> bytes -> bytes -> option bytes)
+         (aes_ctr : bytes -> bytes -> bytes -> bytes) (hmac : hash -> bytes -> bytes -> bytes),
+    (forall k n p, length (gcm_seal k n p) = length p + 16) ->
+    (forall k n p, gcm_open k n (gcm_seal k n p) = Some p) ->
+    (forall k iv x, length (aes_ctr k iv x) = length x) ->
+    (forall k iv x, aes_ctr k iv (aes_ctr k iv x) = x) ->
+    (forall h k m, length (hmac h k m) = digest_size h) ->
+  forall (k : skey) (salt prefix aad : bytes) (chunks : list bytes) (sizes : list nat),
+    key_valid k = true -> length salt = k_dk k -> length prefix = nonce_prefix_size ->
+    (N.of_nat (length (segments (k_cseg k - k_tag k) (k_foff k + hdr_len k) (concat chunks))) <= max_segments)%N ->
+    match new_enc_writer hkdf k (salt ++ prefix) aad (mkSink [] None) with
+    | (Some (k1, k2, pre, w0), _) =>
+      (k1, k2) = derive hkdf k salt aad /\ pre = prefix /\
+      let '(w1, rs) := wwrites (seg_enc gcm_seal aes_ctr hmac k (k1, k2)) (k_wparams k pre) w0 chunks in
+      let '(w2, ok) := wclose (seg_enc gcm_seal aes_ctr hmac k (k1, k2)) (k_wparams k pre) w1 in
+      rs = map (fun c => WOk (length c)) chunks /\ ok = true /\
+      sout (wsink w2) =
+        header k salt prefix ++
+        encode_stream (seg_enc gcm_seal aes_ctr hmac k (derive hkdf k salt aad)) (k_nonce_size k) prefix
+                      (k_cseg k - k_tag k) (k_foff k + hdr_len k) (concat chunks) /\
+      match new_dec_reader hkdf src read_full k aad (mkSrc (sout (wsink w2)) None) with
+      | (Some (k1', k2', pre', r0), _) =>
+        let '(outb, f) := drive (seg_dec gcm_open aes_ctr hmac k (k1', k2')) read_full (k_rparams k pre') sizes r0 [] in
+        (f = AtEof \/ f = Pending) /\ (f = AtEof -> outb = concat chunks) /\
+        (exists tl, concat chunks = outb ++ tl) /\
+        (Forall (fun n => 0 < n) sizes ->
+         length (concat chunks) +
+         length (segments (k_cseg k - k_tag k) (k_foff k + hdr_len k) (concat chunks)) < length sizes ->
+         f = AtEof)
+      | (None, _) => False
+      end
+    | (None, _) => False
+    end.
+Proof.
+  intros hkdf gcm_seal gcm_open aes_ctr hmac H1 H2 H3 H4 H5.
+  exact (key_roundtrip hkdf gcm_seal gcm_open aes_ctr hmac H1 H2 H3 H4 H5).
+Qed.
+Print Assumptions C07_key_roundtrip.
+
+(* (d) I/O FAULTS, writer side.  If the underlying writer fails persistently
+   and cannot take the whole stream, some Write or Close returns an error —
+   never overall success. *)
+Theorem C07_writer_fault_surfaces :
+  forall (encs : bytes -> bytes -> bytes) (P : wparams) (k : sink) (f : nat) (chunks : list bytes) (st0 : wst),
+    0 < w_seg P - w_off P ->
+    sfail k = Some f ->
+    f < length (sout k) +
+        length (encode_stream encs (w_nonce_size P) (w_prefix P) (w_seg P) (w_off P) (concat chunks)) ->
+    (N.of_nat (length (segments (w_seg P) (w_off P) (concat chunks))) <= max_segments)%N ->
+    new_writer P k = Some st0 ->
+    let '(st1, rs) := wwrites encs P st0 chunks in
+    let '(st2, ok) := wclose encs P st1 in
+    (exists n, In (WErr n) rs) \/ ok = false.
+Proof. intros encs P k f chunks st0 Hpos. exact (writer_fault_surfaces encs P Hpos k f chunks st0). Qed.
+Print Assumptions C07_writer_fault_surfaces.
+
+(* (d) I/O FAULTS, reader side.  A source that fails persistently (from byte
+   k <= its length on) never leads to a clean EOF: for ANY data, parameters and
+   segment cipher ... *)
+Theorem C07_reader_fault_never_clean_eof :
+  forall (decs : bytes -> bytes -> option bytes) (P : rparams) (data : bytes) (k : nat)
+         (sizes : list nat) (st0 : rst src),
+    k <= length data ->
+    new_reader P (mkSrc data (Some k)) = Some st0 ->
+    snd (drive decs read_full P sizes st0 []) <> AtEof.
+Proof.
+  intros decs P data k sizes st0 Hk Hnew. unfold new_reader in Hnew.
+  destruct (_ <? 5); [discriminate|]. inversion Hnew; subst.
+  apply reader_fault_never_eof. split; [reflexivity|]. exists k. split; [reflexivity|exact Hk].
+Qed.
+Print Assumptions C07_reader_fault_never_clean_eof.
+
+(* ... and over the honest stream the bytes delivered before the error are a
+   prefix of the plaintext, nothing panics, and enough non-empty reads do
+   reach the error. *)
+Theorem C07_reader_fault_prefix :
+  forall (encs : bytes -> bytes -> bytes) (decs : bytes -> bytes -> option bytes)
+         (P : rparams) (seg ov : nat) (sizes : list nat) (p : bytes) (k : nat) (st0 : rst src),
+    r_ctseg P = seg + ov -> 0 < seg - r_off P -> 0 < ov ->
+    (forall n s, length (encs n s) = length s + ov) ->
+    (forall n s, decs n (encs n s) = Some s) ->
+    (N.of_nat (length (segments seg (r_off P) p)) <= max_segments)%N ->
+    new_reader P (mkSrc (encode_stream encs (r_nonce_size P) (r_prefix P) seg (r_off P) p) (Some k)) = Some st0 ->
+    let '(outb, f) := drive decs read_full P sizes st0 [] in
+    f <> Panicked /\ (exists tl, p = outb ++ tl) /\ (f = AtEof -> outb = p) /\
+    (Forall (fun n => 0 < n) sizes -> length p + length (segments seg (r_off P) p) < length sizes -> f <> Pending).
+Proof.
+  intros encs decs P seg ov sizes p k st0 Hct Hpos Hov Hlen Hdec.
+  exact (reader_fault_prefix encs decs P seg ov Hct Hpos Hov Hlen Hdec sizes p k st0).
+Qed.
+Print Assumptions C07_reader_fault_prefix.
+
+(* (e) THE "TOO MANY SEGMENTS" GUARD.  Below the guard distinct (counter,
+   last-flag) pairs give distinct nonces; at the guard Close fails and leaves
+   the writer unchanged, Write emits nothing, Read decrypts nothing. *)
+Theorem C07_nonces_distinct_below_guard :
+  forall sz pre a la b lb, (a < max_segments)%N -> (b < max_segments)%N ->
+    nonce_of sz pre a la = nonce_of sz pre b lb -> a = b /\ la = lb.
+Proof. exact nonce_inj. Qed.
+Print Assumptions C07_nonces_distinct_below_guard.
+
+Theorem C07_guard_too_many_segments :
+  forall encs decs (WP : wparams) (RP : rparams) (w : wst) (r : rst src) (p : bytes) (n : nat),
+    ((max_segments <= wcnt w)%N -> wclosed w = false ->
+       wclose encs WP w = (w, false) /\
+       match snd (wwrite encs WP w p) with
+       | WOk m => m = length p /\ wsink (fst (wwrite encs WP w p)) = wsink w
+       | _ => True
+       end) /\
+    ((max_segments <= rcnt r)%N -> length (rpt r) <= rpos r -> rlast r = false ->
+       match snd (read decs read_full RP r n) with RData _ => False | _ => True end).
+Proof.
+  intros encs decs WP RP w r p n. split.
+  - intros H Hc. split; [apply guard_close; auto|].
+    pose proof (guard_write encs WP w p H Hc) as G.
+    destruct (snd (wwrite encs WP w p)); auto. tauto.
+  - apply guard_read.
+Qed.
+Print Assumptions C07_guard_too_many_segments.
+
+(* (c) MANIPULATION.  Premise = authenticity of the segment cipher under the
+   session key (the only (nonce, ciphertext) pairs that decrypt are those the
+   writer produced for the plaintext p; `decs n c = Some s -> c = encs n s`
+   strengthened to "and (n, s) is a segment of this stream", which an AEAD
+   gives and without which a valid encoding of another plaintext would be a
+   counterexample).  Then for ANY byte string c' handed to the reader —
+   truncated anywhere, segments dropped / duplicated / reordered / altered,
+   bytes appended — and any I/O behaviour of the source, for every sequence of
+   Read sizes: nothing panics; the bytes returned are always a prefix of p; a
+   clean EOF is reported only if c' IS the original stream (and then exactly p
+   was returned); and |segments| + |p| + 1 non-empty reads always reach EOF or
+   an error.  Hence c' <> original  ==>  error, never clean EOF. *)
+Theorem C07_manipulation_detected :
+  forall (encs : bytes -> bytes -> bytes) (decs : bytes -> bytes -> option bytes)
+         (P : rparams) (seg ov : nat) (p : bytes),
+    r_ctseg P = seg + ov -> 0 < seg - r_off P ->
+    (N.of_nat (length (segments seg (r_off P) p)) <= max_segments)%N ->
+    (forall n c s, decs n c = Some s ->
+       exists i, i < length (segments seg (r_off P) p) /\
+                 n = nonce_of (r_nonce_size P) (r_prefix P) (N.of_nat i) (i + 1 =? length (segments seg (r_off P) p)) /\
+                 s = nth i (segments seg (r_off P) p) [] /\ c = encs n s) ->
+  forall (c' : bytes) (F : option nat) (sizes : list nat) (st0 : rst src),
+    new_reader P (mkSrc c' F) = Some st0 ->
+    let '(outb, f) := drive decs read_full P sizes st0 [] in
+    f <> Panicked /\ (exists tl, p = outb ++ tl) /\
+    (f = AtEof -> c' = encode_stream encs (r_nonce_size P) (r_prefix P) seg (r_off P) p /\ outb = p) /\
+    (Forall (fun n => 0 < n) sizes -> length (segments seg (r_off P) p) + length p < length sizes -> f <> Pending).
+Proof.
+  intros encs decs P seg ov p Hct Hpos Hb Hauth.
+  exact (manipulation_detected encs decs P seg ov Hct Hpos p Hb Hauth).
+Qed.
+Print Assumptions C07_manipulation_detected.
+
+(* (c) other associated data / other key: the reader derives a session key
+   under which nothing was ever encrypted, so nothing decrypts: the first Read
+   (any size) fails and no byte is returned. *)
+Theorem C07_other_session_key_fails :
+  forall (decs : bytes -> bytes -> option bytes) (P : rparams),
+    r_off P <= r_ctseg P + 1 -> (forall n c, decs n c = None) ->
+  forall (c' : bytes) (F : option nat) (n : nat) (ns : list nat) (st0 : rst src),
+    new_reader P (mkSrc c' F) = Some st0 ->
+    drive decs read_full P (n :: ns) st0 [] = ([], Failed).
+Proof. intros decs P Hoff Hnone. exact (nothing_decrypts decs P Hoff Hnone). Qed.
+Print Assumptions C07_other_session_key_fails.
+
+(* the authenticity premise is inhabited: the ideal decrypter that accepts
+   exactly what the writer produced; and a tampered stream computes as stated *)
+Example C07_manipulation_premise_inhabited :
+  let p := [1; 2; 3; 4; 5; 6]%N in
+  let RP := mkRP 6 [9%N] 7 1 in
+  let decs := ideal_decs toy_encs 6 [9%N] (segments 3 1 p) in
+  (forall n c s, decs n c = Some s ->
+     exists i, i < length (segments 3 1 p) /\
+               n = nonce_of 6 [9%N] (N.of_nat i) (i + 1 =? length (segments 3 1 p)) /\
+               s = nth i (segments 3 1 p) [] /\ c = toy_encs n s) /\
+  let ct := encode_stream toy_encs 6 [9%N] 3 1 p in
+  match new_reader RP (mkSrc ct None), new_reader RP (mkSrc (firstn 13 ct) None),
+        new_reader RP (mkSrc (firstn 6 ct ++ skipn 13 ct) None) with
+  | Some r0, Some r1, Some r2 =>
+      drive decs read_full RP [9; 9; 9; 9; 9] r0 [] = (p, AtEof) /\
+      drive decs read_full RP [9; 9; 9; 9; 9] r1 [] = ([1; 2]%N, Failed) /\     (* cut on a segment boundary *)
+      drive decs read_full RP [9; 9; 9; 9; 9] r2 [] = ([1; 2]%N, Failed)         (* middle segment dropped *)
+  | _, _, _ => False
+  end.
+Proof.
+  split; [intros n c s; apply ideal_decs_auth|]. vm_compute. repeat split; reflexivity.
+Qed.
+
+(* Non-vacuity: the toy segment cipher of the correspondence run satisfies the
+   premises (overhead 4), and a concrete history computes as the theorems say. *)
+Example C07_premises_inhabited :
+  (forall n s, length (toy_encs n s) = length s + 4) /\
+  (forall n s, toy_decs n (toy_encs n s) = Some s) /\
+  let WP := mkWP 6 [9%N] 3 1 in
+  let RP := mkRP 6 [9%N] 7 1 in
+  let p := [1; 2; 3; 4; 5; 6]%N in
+  match new_writer WP (mkSink [] None) with
+  | Some w0 =>
+    let '(w1, rs) := wwrites toy_encs WP w0 [[1%N]; []; [2; 3; 4; 5]%N; [6%N]] in
+    let '(w2, ok) := wclose toy_encs WP w1 in
+    rs = [WOk 1; WOk 0; WOk 4; WOk 1] /\ ok = true /\
+    sout (wsink w2) = encode_stream toy_encs 6 [9%N] 3 1 p /\
+    length (segments 3 1 p) = 3 /\
+    match new_reader RP (mkSrc (sout (wsink w2)) None) with
+    | Some r0 => drive toy_decs read_full RP [0; 1; 4; 1; 9; 9; 9] r0 [] = (p, AtEof)
+    | None => False
+    end
+  | None => False
+  end.
+Proof.
+  split; [exact toy_len|]. split; [exact toy_dec_enc|]. vm_compute. repeat split; reflexivity.
+Qed.
